@@ -257,7 +257,7 @@ def decide(prop, tier):
         "distinct_nontrivial": rep["nontrivial"],
         "rule": spec["rule"],
         "samples": rep["samples"] or ["(no sample recorded)"],
-        "exhaustive": bool(spec.get("exhaustive", True)),
+        "exhaustive": bool(spec.get("exhaustive", True)) and rep["counters"].get("sched.capped_explorations", 0) == 0,
         "counters": rep["counters"],
         "notes": rep["notes"],
         "distinct_outcomes": len(rep["outcomes"]),
